@@ -64,6 +64,15 @@ class Keyed(Iterable[V], Generic[K, V]):
     def lead_v(self) -> V: ...
 class Flip(Pair[U, T], Generic[T, U]):
     def mine(self) -> T: ...
+# user classes that happen to be named like names in the typing module
+class Container(Iterable[T]):
+    def c_first(self) -> T: ...
+class JetContainer(Container[T]):
+    def jc_n(self) -> int: ...
+class Collection(Generic[T]):
+    def get(self) -> T: ...
+class SubCollection(Collection[T]):
+    def sub_get(self) -> T: ...
 class Plain0:
     def tag(self) -> int: ...
 class GenFirst(Generic[T], Plain0):
@@ -120,6 +129,8 @@ class Vtx(Base):
     @func_adl_callback(_cb_new_node)
     def best(self) -> Trk: ...
 class Event(Base):
+    def jc(self) -> JetContainer[Jet]: ...
+    def sc(self) -> SubCollection[Trk]: ...
     def keyed(self) -> Keyed[float, Jet]: ...
     def keyed_t(self) -> Keyed[Jet, Trk]: ...
     def flip(self) -> Flip[Jet, Trk]: ...
